@@ -41,6 +41,7 @@ static void out(const char *fmt, ...)
 /* -------- window control -------- */
 static unsigned long want_fail;
 static char missed[256];
+static int tolerated_shrink;     /* a realloc that only shrinks failed and the call went on (nothing was needed) */
 static int any_call_failed_ok;   /* a call saw the injected failure and reported it */
 static void win_open(void)  { oom_track = 1; oom_inject = 1; oom_fail_at = want_fail; }
 static void win_close(void) { oom_inject = 0; oom_track = 0; }
@@ -52,6 +53,7 @@ static kdump_status chk_status(const char *name, kdump_status st, unsigned long 
 {
 	if (oom_failed_calls != failed_before) {
 		if (is_nomem_class(st)) any_call_failed_ok = 1;
+		else if (oom_fail_shrink && st == KDUMP_OK) tolerated_shrink = 1;
 		else if (!missed[0]) snprintf(missed, sizeof missed, "%s=%d", name, (int)st);
 	}
 	return st;
@@ -230,6 +232,7 @@ static void sc_clone(char **av, int ac)
 	close(fd);
 }
 
+static int reopen_after_failure;
 static void sc_open(char **av, int ac)
 {
 	const char *path = av[0];
@@ -250,7 +253,7 @@ static void sc_open(char **av, int ac)
 	fstat(fd, &st1); pos1 = lseek(fd, 0, SEEK_CUR);
 	if (pos0 != pos1 || st0.st_size != st1.st_size) surv_fail("descriptor repositioned");
 	if (!held_at_return) {
-		if (st != KDUMP_OK) {
+		if (st != KDUMP_OK && reopen_after_failure) {
 			/* the context survives a failed open: opening again must work */
 			LIB(st = kdump_open_fd(ctx, fd));
 			if (st != KDUMP_OK) surv_fail("re-open after failed open: %s", kdump_get_err(ctx));
@@ -262,6 +265,8 @@ static void sc_open(char **av, int ac)
 		surv_fail("skipped: lock still held");
 	close(fd);
 }
+
+static void sc_reopen(char **av, int ac) { reopen_after_failure = 1; sc_open(av, ac); }
 
 static void sc_read(char **av, int ac)
 {
@@ -372,7 +377,7 @@ static void sc_pagemap(char **av, int ac)
 	kdump_ctx_t *ctx = open_ctx(path, &fd);
 	kdump_attr_t attr;
 	kdump_status st;
-	unsigned char bits[8];
+	static unsigned char bits[0x3000 / 8];
 	kdump_addr_t idx = 0;
 	static const char *keys[] = { "memory.pagemap", "file.pagemap" };
 	unsigned i;
@@ -381,7 +386,7 @@ static void sc_pagemap(char **av, int ac)
 	for (i = 0; i < 2; ++i) {
 		st = CALL(keys[i], kdump_get_attr(ctx, keys[i], &attr));
 		if (st == KDUMP_OK && attr.type == KDUMP_BITMAP) {
-			CALL("bmp_get_bits", kdump_bmp_get_bits(attr.val.bitmap, 0, 63, bits));
+			CALL("bmp_get_bits", kdump_bmp_get_bits(attr.val.bitmap, 0, 0x2fff, bits));
 			idx = 0;
 			CALL("bmp_find_set", kdump_bmp_find_set(attr.val.bitmap, &idx));
 			idx = 0;
@@ -392,8 +397,7 @@ static void sc_pagemap(char **av, int ac)
 	win_close();
 	if (!held_at_return) {
 		LIB(st = kdump_get_attr(ctx, "memory.pagemap", &attr));
-		if (st != KDUMP_OK) surv_fail("memory.pagemap after failure: %s", kdump_get_err(ctx));
-		else {
+		if (st == KDUMP_OK) {
 			idx = 0;
 			LIB(st = kdump_bmp_find_set(attr.val.bitmap, &idx));
 			if (st != KDUMP_OK) surv_fail("find_set after failure: %s", kdump_bmp_get_err(attr.val.bitmap));
@@ -584,7 +588,8 @@ static void sc_wb_clone_path(char **av, int ac)
 	if (!ctx) _exit(4);
 	LIB(kdump_set_string_attr(ctx, "addrxlat.default.arch", "x86_64"));
 	LIB(kdump_set_number_attr(ctx, "addrxlat.default.rootpgt.as", 1));
-	LIB(kdump_set_string_attr(ctx, "user.deep.er.path", "value"));
+	LIB(kdump_set_string_attr(ctx, "linux.uts.sysname", "Linux"));
+	LIB(kdump_set_string_attr(ctx, "linux.uts.nodename", "node"));
 	LIB(d = attr_dict_clone(ctx->dict));
 	if (!d) _exit(4);
 	orig = lookup_attr(ctx->dict, key);
@@ -611,7 +616,7 @@ static void sc_wb_clone_path(char **av, int ac)
 }
 
 static const struct { const char *name; void (*fn)(char **, int); int minargs; } scenarios[] = {
-	{ "new", sc_new, 0 }, { "clone", sc_clone, 2 }, { "open", sc_open, 1 },
+	{ "new", sc_new, 0 }, { "clone", sc_clone, 2 }, { "open", sc_open, 1 }, { "reopen", sc_reopen, 1 },
 	{ "read", sc_read, 4 }, { "readstr", sc_readstr, 3 }, { "attrs", sc_attrs, 1 },
 	{ "pagemap", sc_pagemap, 1 }, { "vmcoreinfo", sc_vmcoreinfo, 1 }, { "free", sc_free, 1 },
 	{ "wb_xlat", sc_wb_xlat, 1 }, { "wb_fcache_new", sc_wb_fcache_new, 3 },
@@ -672,7 +677,7 @@ static void child(char *line, int resfd)
 		}
 		l = snprintf(head, sizeof head, "R nalloc=%lu fail=%lx/%lx res=%s%s held=%d%s%s leak=%s surv=%s",
 			     oom_seq, (unsigned long)oom_fail_site, (unsigned long)oom_fail_site2,
-			     !oom_failed_calls ? "nofail" : missed[0] ? "missed:" : any_call_failed_ok ? "reported" : "unobserved",
+			     !oom_failed_calls ? "nofail" : missed[0] ? "missed:" : any_call_failed_ok ? "reported" : tolerated_shrink ? "shrink-tolerated" : "unobserved",
 			     missed[0] ? missed : "",
 			     held_at_return, held_at_return ? ":" : "", held_names,
 			     ll ? leak : "-", surv);
